@@ -116,7 +116,7 @@ fn c03_o1_shallow_and_hot_complete() {
 
 /// Shared body of the write-history harnesses: a memo verified at `v` with durability `d`, then
 /// `n` revisions each with one write of symbolic durability, then shallow verification.
-fn history_then_shallow(n: usize, d: Durability, untracked: bool) {
+fn history_then_shallow(n: usize, d: Durability, untracked: bool) -> (bool, bool) {
     let (mut zalsa, revs) = any_zalsa();
     let v: usize = kani::any();
     kani::assume(1 <= v && v <= revs[0]);
@@ -154,14 +154,9 @@ fn history_then_shallow(n: usize, d: Durability, untracked: bool) {
         assert!(res.yes() == initially_ok || res.yes(), "C02: never-change memo must stay shallow-verifiable");
         assert!(res.yes(), "C02: a NEVER_CHANGE memo failed shallow verification");
     }
-    kani::cover!(hit);
-    if dur_index(d) != 0 {
-        kani::cover!(!hit && res.yes() && n > 0);
-    } else {
-        kani::cover!(!hit && !res.yes());
-    }
     std::mem::forget(header);
     std::mem::forget(zalsa);
+    (hit, res.yes())
 }
 
 // @verif prop=C02,C03,C04 obl=O3 tier=quick bounds="arbitrary INV start state; every verified_at <= now; memo durability symbolic; exactly 2 later revisions, each with an optional write of symbolic durability LOW/MEDIUM/HIGH"
@@ -172,7 +167,9 @@ fn history_then_shallow(n: usize, d: Durability, untracked: bool) {
 #[kani::unwind(5)]
 #[kani::stub(real_catch_unwind, stub_catch_unwind)]
 fn c02_o3_history_2() {
-    history_then_shallow(2, any_durability(), false);
+    let (hit, yes) = history_then_shallow(2, any_durability(), false);
+    kani::cover!(hit && !yes);
+    kani::cover!(!hit && yes);
 }
 
 // @verif prop=C02,C03,C04 obl=O3 tier=thorough bounds="as c02_o3_history_2 with exactly 3 later revisions"
@@ -182,7 +179,9 @@ fn c02_o3_history_2() {
 #[kani::unwind(6)]
 #[kani::stub(real_catch_unwind, stub_catch_unwind)]
 fn c02_o3_history_3() {
-    history_then_shallow(3, any_durability(), false);
+    let (hit, yes) = history_then_shallow(3, any_durability(), false);
+    kani::cover!(hit && !yes);
+    kani::cover!(!hit && yes);
 }
 
 // @verif prop=C02,C03,C04 obl=O3 tier=quick bounds="as c02_o3_history_2 with exactly 1 later revision"
@@ -192,7 +191,9 @@ fn c02_o3_history_3() {
 #[kani::unwind(4)]
 #[kani::stub(real_catch_unwind, stub_catch_unwind)]
 fn c02_o3_history_1() {
-    history_then_shallow(1, any_durability(), false);
+    let (hit, yes) = history_then_shallow(1, any_durability(), false);
+    kani::cover!(hit && !yes);
+    kani::cover!(!hit && yes);
 }
 
 // @verif prop=C04,C02 obl=O2 tier=quick bounds="untracked memo (durability LOW, origin DerivedUntracked); 1 or 2 later revisions with optional writes of any durability; arbitrary INV start state"
@@ -204,7 +205,10 @@ fn c02_o3_history_1() {
 fn c04_o2_untracked_never_shallow_verified_later() {
     let n: usize = kani::any();
     kani::assume(n == 1 || n == 2);
-    history_then_shallow(n, Durability::LOW, true);
+    let (hit, yes) = history_then_shallow(n, Durability::LOW, true);
+    assert!(!yes);
+    kani::cover!(hit);
+    kani::cover!(!hit);
 }
 
 // @verif prop=C20 obl=O3 tier=quick bounds="all 2^16 pairs of (memo epoch, runtime epoch) with memo epoch != runtime epoch; provisional memo with one cycle head; iteration <= 200"
